@@ -99,7 +99,7 @@ def register(reg):
     )
 
     reg.contract(
-        "werkzeug/datastructures/headers.py:Headers.remove", prop="C08,C05", self_model=H, replay="method", params={"key": "str"},
+        "werkzeug/datastructures/headers.py:Headers.remove", prop="C08,C05", self_model=H, replay="method", params={"key": "str"}, returns="none",
         modifies=["self._list"],
         ensures=["not has_key(self, key)", "len(self._list) <= len(old(self._list))", "implies(old(I_h(self)), I_h(self))"],
     )
